@@ -9,6 +9,7 @@ package graph
 //@   pure
 //@   ensures result != nil
 //@   ensures vset(result) != 0 && (vset(ctx) != 0 ==> vset(result) == vset(ctx))
+//@   ensures vset(ctx) == 0 ==> vnew(result)
 
 //@ func CheckAndAddVisited
 //@   trusted
